@@ -475,8 +475,8 @@ def _analyse(c, i):
         elif name == "h.lsn":
             ix, cnt = val // 1000, val % 1000
             if inst >= 1 and val >= 0 and cnt < 2 * per_port and kernel is None:
-                kernel = ("when instance %d was about to tell its predecessor to shut down (%d us) the kernel had %d socket(s) in LISTEN state "
-                          "on port %d; the predecessor's and its own are %d" % (inst, t, cnt, r["ports"][ix], 2 * per_port))
+                kernel = ("when instance %d was about to tell its predecessor to shut down (%d us) %d socket(s) bound to port %d were in "
+                          "listening state (SO_ACCEPTCONN); the predecessor's and its own are %d" % (inst, t, cnt, r["ports"][ix], 2 * per_port))
         if not seen_first and all(any(v > 0 for v in bound[p].values()) for p in r["ports"]):
             seen_first = True
         if seen_first and gap is None:
@@ -630,7 +630,7 @@ def complaints(c, i):
         if an[what]:
             why.append((False, "hook log: " + an[what]))
     if an["kernel"]:
-        why.append((False, "/proc/net/tcp: " + an["kernel"]))
+        why.append((False, "kernel: " + an["kernel"]))
     if len(r["executed"]) != k + 1 or not all(r["executed"]):
         why.append((True, "execute() of an instance did not return: %s" % r["executed"]))
     for h, t in enumerate(r["timings"]):
@@ -902,8 +902,8 @@ RULE = ("Chains of 1-5 handovers between real servers in one process (RunConfig:
         "connection after the server closed it is not one; the answer names the accepting instance; on one connection an instance answers at "
         "most one request sent after it set its shutdown flag; an idle connection is closed by the server; from the listen/close hook events "
         "every port has a listening socket of some instance at every moment, no listener is closed and no instance is told before the successor "
-        "has every socket listening, and by the kernel's socket table (/proc/net/tcp, read when the successor is about to send the handover "
-        "message) the predecessor's and the successor's sockets on every port are in LISTEN state; execute() returns; all three wait() calls of every predecessor resolve (the first within slow handler + "
+        "has every socket listening, and by the kernel (SO_ACCEPTCONN of the process' sockets, read when the successor is about to send the handover "
+        "message) the predecessor's and the successor's sockets on every port are in listening state; execute() returns; all three wait() calls of every predecessor resolve (the first within slow handler + "
         "15 s, the others within 5 s of it); the control socket is answered by instances in increasing order, finally by the newest, and from "
         "an instance's first answer until it is told by that instance and nobody else at every probe (no NotFound, no Error); the ports refuse "
         "after the last shutdown; (b) trace inclusion: the log, mapped to labels with the program counter each hook reported, is accepted "
